@@ -6,8 +6,9 @@
 # The scratch worktree and its build output are removed afterwards.
 set -u
 D=$(cd "$1" && pwd)
+BASE=${2:-HEAD}
 W=/tmp/vs-$(basename "$D")-$$
-git -C /repo worktree add -q --detach "$W" HEAD || exit 2
+git -C /repo worktree add -q --detach "$W" "$BASE" || exit 2
 trap 'git -C /repo worktree remove --force "$W" 2>/dev/null; rm -rf "$W"' EXIT
 cd "$W"
 mkdir -p OUT && cp "$D"/demo* "$D"/build.sh OUT/ 2>/dev/null
